@@ -80,24 +80,21 @@ def check(chk):
                 chk.judge(ok, 'C33.key', n, 'OrderedMap.%s: _index keyed by the serialized key (%s)' % (f.name, src(key)), 'index accessed with a raw key: unhashable / unequal-but-same-encoding keys break')
     chk.require('C33.key', 4)
     di = m.func('OrderedMap.__delitem__')
-    chk.judge('i if i < index else i - 1' in src(di) and 'self._items.pop(index)' in src(di), 'C33.paired', di, '__delitem__ renumbers the entries after the removed position', 'deletion no longer renumbers later entries')
+    _delitem_rule(chk, m, di)
     ins = m.func('OrderedMap._insert')
-    s = src(ins)
-    from .. import sem as _sem33
-    g33, fl33 = _sem33.flow_of(ins)
-
-    def _entry(e):
-        e = _sem33.resolve(ins, e)
-        return isinstance(e, ast.Tuple) and [src(x) for x in e.elts] == ['key', 'value']
-    repl = [n for n in g33.stmt_nodes() if n.kind == 'stmt' and isinstance(n.ast, ast.Assign) and src(n.ast.targets[0]) == 'self._items[i]']
-    apps33 = [n for n in g33.stmt_nodes() if n.kind == 'stmt' and isinstance(n.ast, ast.Expr) and isinstance(n.ast.value, ast.Call) and src(n.ast.value.func) == 'self._items.append']
-    idx33 = [n for n in g33.stmt_nodes() if n.kind == 'stmt' and isinstance(n.ast, ast.Assign) and src(n.ast.targets[0]) == 'self._index[flat_key]']
-    ok33 = len(repl) == 1 and len(apps33) == 1 and len(idx33) == 1 and _entry(repl[0].ast.value) and _entry(apps33[0].ast.value.args[0]) and \
-        src(idx33[0].ast.value) == 'len(self._items) - 1' and g33.dominates(apps33[0], idx33[0]) and \
-        all(fa.knows('i < 0') is False for fa, _c in fl33.at(repl[0])) and all(fa.knows('i < 0') is True for fa, _c in fl33.at(apps33[0])) and \
-        "self._index.get(flat_key, -1)" in s
-    chk.judge(ok33, 'C33.paired', ins,
-              '_insert: existing key keeps its position; a new key is appended and indexed at the last position', 'insert position bookkeeping changed')
+    _insert_rule(chk, m, ins)
+    # the decoder's shortcut (keys already serialized, known to be distinct): the same pairing of item and index
+    iu = m.func('OrderedMapSerializedKey._insert_unchecked')
+    sts = [st for st in iu.body if not (isinstance(st, ast.Expr) and isinstance(st.value, ast.Constant))]
+    txt = [src(st) for st in sts]
+    forms = (['self._items.append((key, value))', 'self._index[flat_key] = len(self._items) - 1'],
+             ['self._index[flat_key] = len(self._items)', 'self._items.append((key, value))'])
+    oku = txt in [list(f_) for f_ in forms]
+    if not oku and len(sts) == 3 and isinstance(sts[0], ast.Assign) and isinstance(sts[0].targets[0], ast.Name) and src(sts[0].value) == 'len(self._items)':
+        v_ = sts[0].targets[0].id
+        oku = sorted(txt[1:]) == sorted(['self._items.append((key, value))', 'self._index[flat_key] = %s' % v_])
+    chk.judge(oku, 'C33.paired', iu, '_insert_unchecked: (key, value) appended and flat_key indexed at the position of that item',
+              'the decoder\'s insert no longer indexes the key at the position of the appended item (%s)' % txt)
     sk = m.func('OrderedMapSerializedKey._serialize_key')
     chk.judge('self.cass_key_type.serialize(key, self.protocol_version)' in src(sk), 'C33.key', sk, 'map-column keys are identified by their CQL encoding', 'key identity changed')
 
@@ -212,3 +209,119 @@ def _alias_rule(chk, util):
                           '%s hands the backing list of `%s` to another container without copying: mutating one of them in place changes the other' % (q, owner))
     if n < 4:
         raise AnalysisError('C33.alias: expected at least 4 list hand-overs (the in-place operators), found %d' % n)
+
+
+def _delitem_rule(chk, m, di):
+    """__delitem__: R = self._index.pop(serialized key); the index becomes {k: i if i < R else i - 1}; self._items.pop(R)"""
+    from .. import sem
+    from ..fold import Folder, Unfoldable
+    pops = [st for st in body_walk(di) if isinstance(st, ast.Assign) and len(st.targets) == 1 and isinstance(st.targets[0], ast.Name) and isinstance(st.value, ast.Call)
+            and src(st.value.func) == 'self._index.pop']
+    if len(pops) != 1:
+        raise AnalysisError('OrderedMap.__delitem__: position of the removed key not found')
+    R = pops[0].targets[0].id
+    ipop = [c for c in body_walk(di) if isinstance(c, ast.Call) and src(c.func) == 'self._items.pop']
+    ok = len(ipop) == 1 and [src(a) for a in ipop[0].args] == [R]
+    # the new index
+    news = [st for st in body_walk(di) if isinstance(st, ast.Assign) and src(st.targets[0]) == 'self._index']
+    d = None
+    if len(news) == 1:
+        v = news[0].value
+        if isinstance(v, ast.Name):
+            ds = sem.elementwise(di).get(v.id, [])
+            d = ds[0][0] if len(ds) == 1 else None
+        else:
+            d = sem._comp_descr(v)
+    okd = d is not None and d[0] == 'dict' and d[1] == 'self._index.items()' and d[2][0] == '_e0'
+    if okd:
+        fo = Folder(m)
+        e = ast.parse(d[2][1], mode='eval').body
+        try:
+            for r in range(0, 5):
+                for i in range(0, 6):
+                    if i == r:
+                        continue        # the removed entry is gone from the index when it is renumbered
+                    if fo.eval(e, env={'_e1': i, '_e0': 'k', R: r}) != (i if i < r else i - 1):
+                        okd = False
+        except Unfoldable as ex:
+            raise AnalysisError('OrderedMap.__delitem__: renumbering expression %s not understood: %s' % (d[2][1], ex))
+    chk.judge(ok and okd, 'C33.paired', di, '__delitem__ renumbers the entries after the removed position (positions below it stay, later ones move down by one) and removes that item',
+              'deletion no longer renumbers later entries (%s)' % (d,))
+
+
+def _insert_rule(chk, m, ins):
+    """_insert: P = self._index.get(flat_key, -1); present (P >= 0): self._items[P] = (key, value); absent: append (key, value) and index it at the last position"""
+    from .. import sem
+    from ..cfg import Flow
+    from ..fold import Folder, Unfoldable
+    g, fl = sem.flow_of(ins)
+    fo = Folder(m)
+    gets = [st for st in body_walk(ins) if isinstance(st, ast.Assign) and len(st.targets) == 1 and isinstance(st.targets[0], ast.Name) and src(st.value) == 'self._index.get(flat_key, -1)']
+    if len(gets) != 1:
+        raise AnalysisError('OrderedMap._insert: position lookup self._index.get(flat_key, -1) not found')
+    P = gets[0].targets[0].id
+
+    def entry(e):
+        e = sem.resolve(ins, e)
+        return isinstance(e, ast.Tuple) and [src(x) for x in e.elts] == ['key', 'value']
+
+    def outcome(expr):
+        """which edge of a test on P alone is taken by the absent key (P == -1): 'T' / 'F' / None"""
+        names = set(n.id for n in ast.walk(expr) if isinstance(n, ast.Name))
+        if names != set([P]):
+            return None
+        try:
+            absent = bool(fo.eval(expr, env={P: -1}))
+            present = set(bool(fo.eval(expr, env={P: k})) for k in (0, 1, 2, 9))
+        except Unfoldable:
+            return None
+        if present == set([not absent]):
+            return 'T' if absent else 'F'
+        return None
+
+    # state: (P still holds the looked-up position, absent?, appended, names holding len(self._items) taken before the append)
+    def step(n, c):
+        fresh, absent, appended, lens = c
+        if n.kind == 'stmt' and isinstance(n.ast, ast.Assign) and len(n.ast.targets) == 1 and isinstance(n.ast.targets[0], ast.Name):
+            t = n.ast.targets[0].id
+            if n.ast is gets[0]:
+                fresh = True
+            elif t == P:
+                fresh = False
+            if src(n.ast.value) == 'len(self._items)' and not appended:
+                lens = lens | frozenset([t])
+            else:
+                lens = lens - frozenset([t])
+        if n.kind == 'stmt' and isinstance(n.ast, ast.Expr) and isinstance(n.ast.value, ast.Call) and src(n.ast.value.func) == 'self._items.append':
+            appended = True
+        return (fresh, absent, appended, lens)
+
+    def edge(n, s_, lab, c):
+        fresh, absent, appended, lens = c
+        if lab is not None and lab[0] in ('T', 'F') and fresh:
+            o = outcome(lab[1])
+            if o is not None:
+                absent = (lab[0] == o)
+        return (fresh, absent, appended, lens)
+    f2 = Flow(g, (False, None, False, frozenset()), step, edge=edge)
+    repl = [n for n in g.stmt_nodes() if n.kind == 'stmt' and isinstance(n.ast, ast.Assign) and isinstance(n.ast.targets[0], ast.Subscript) and src(n.ast.targets[0].value) == 'self._items']
+    apps = [n for n in g.stmt_nodes() if n.kind == 'stmt' and isinstance(n.ast, ast.Expr) and isinstance(n.ast.value, ast.Call) and src(n.ast.value.func) == 'self._items.append']
+    idx = [n for n in g.stmt_nodes() if n.kind == 'stmt' and isinstance(n.ast, ast.Assign) and src(n.ast.targets[0]) == 'self._index[flat_key]']
+    ok = len(repl) == 1 and len(apps) == 1 and len(idx) == 1
+    why = 'replace / append / index statements: %d / %d / %d' % (len(repl), len(apps), len(idx))
+    if ok:
+        why = []
+        if not (src(repl[0].ast.targets[0].slice) == P and entry(repl[0].ast.value) and all(c[0] and c[1] is False for _f, c in f2.at(repl[0]))):
+            why.append('the stored position is overwritten on a path where the key may be new, or not with (key, value)')
+        if not (entry(apps[0].ast.value.args[0]) and all(c[1] is True for _f, c in f2.at(apps[0]))):
+            why.append('(key, value) is appended on a path where the key may already be present')
+        v = src(idx[0].ast.value)
+        after = all(c[2] for _f, c in f2.at(idx[0]))
+        before = all(not c[2] for _f, c in f2.at(idx[0]))
+        good_idx = (after and (v == 'len(self._items) - 1' or all(v in c[3] for _f, c in f2.at(idx[0])))) or \
+            (before and (v == 'len(self._items)' or all(v in c[3] for _f, c in f2.at(idx[0]))) and sem.passes_before(g, idx[0], g.exit, apps))
+        if not (good_idx and all(c[1] is True for _f, c in f2.at(idx[0]))):
+            why.append('the new key is indexed at %s, which is not the position of the appended item' % v)
+        ok = not why
+    chk.judge(ok, 'C33.paired', ins, '_insert: existing key keeps its position; a new key is appended and indexed at the last position',
+              'insert position bookkeeping changed: %s' % (why if isinstance(why, str) else '; '.join(why)))
